@@ -354,6 +354,9 @@ func DefaultConsFamilies(quick bool, byzantine bool) ConsFamilies {
 			{W: WV(1, 1, 1, 1), Epoch: 1, R: 12, Dev: 2, Lags: true, MaxLag: 4, DevRounds: 5, LagRounds: 3, RequireLag: true, DropOnly: true, Sequential: true},
 			{W: WV(1, 1, 1, 1), Epoch: 1, R: 12, Dev: 2, Lags: true, MaxLag: 4, DevRounds: 5, LagRounds: 3, RequireLag: true, DropOnly: true},
 			{W: WV(1, 1, 1, 1), Epoch: 1, R: 11, Dev: 3, Lags: true, MaxLag: 3, DevRounds: 4, LagRounds: 2, RequireLag: true, DropOnly: true, Sequential: true},
+			// an early fork by a <1/3 validator whose two siblings are roots of one frame, in an election made close by one dropped parent
+			{W: WV(1, 1, 1, 1), Epoch: 1, R: 8, Dev: 1, DevRounds: 2, DropOnly: true, Fork: true, ForkRounds: 2},
+			{W: WV(1, 1, 1, 1), Epoch: 1, R: 8, Dev: 1, DevRounds: 2, DropOnly: true, Fork: true, ForkRounds: 2, Sequential: true},
 		}
 		f.Sleepers = []SleeperCfg{
 			{W: WV(1, 1, 1, 1), Epoch: 1, MinSleep: 3, MaxSleep: 6, Tail: 5, Forks: true},
